@@ -26,6 +26,8 @@ FP_FILE = os.path.join(HERE, "c13_fingerprints.json")
 PY = "/venv/bin/python"
 EXP_LIMIT = 3.5
 TIME_FLOOR = 0.2          # seconds; analysis times below are treated as this for the exponent fit
+STMT_CPU_LIMIT = 5.0      # CPU seconds: ONE compute_stmt_states call above this is a failing input (the theorems bound
+                          # iteration counts only; this is the monitor for the cost of a single statement analysis)
 WALL_CAP_FACTOR = 12      # wall-clock cap of one run = factor x its CPU-time limit (harness protection only)
 
 # --------------------------------------------------------------------------------------- families
@@ -261,6 +263,88 @@ def fam_random_calls(n, seed=0):
     return {"files": {"main.py": "\n".join(src) + "\n"}}
 
 
+# taint families whose flows ARE found (call source `sourc()` / parameter source `tainted_in`, sink `sink(x)`),
+# over def-use graphs with re-converging branches; sinks placed first / middle / last, and a dead-end region
+# (values that never reach a sink) between the source and the last sink
+TAINT_SETTINGS_FOUND = {
+    "source.yaml": ("- lang: python\n  rules:\n    - operation: parameter_decl\n      name: tainted_in\n"
+                    "    - operation: call_stmt\n      name: sourc\n      tag: [\"%target\"]\n"),
+    "sink.yaml": TAINT_SETTINGS["sink.yaml"],
+}
+
+
+def fam_taint_diamonds(n, sinks="all"):
+    """x0 = sourc(); n sequential if/else diamonds x_i = x_{i-1} | x_{i-1} + 1; sink(x0) first, middle and last
+    (x_n itself reaches a sink only in the `through` call, placed before the last sink)"""
+    src = ["def run(c):", "    x0 = sourc()"] + (["    sink(x0)"] if sinks == "all" else [])
+    for i in range(1, n + 1):
+        src += ["    if c:", f"        x{i} = x{i-1}", "    else:", f"        x{i} = x{i-1} + 1"]
+        if i == max(1, n // 2) and sinks == "all":
+            src.append("    sink(x0)")
+    src += [f"    y = x{n}", "    sink(x0)", "", "run(1)"]
+    return {"files": {"main.py": "\n".join(src) + "\n"}, "settings": TAINT_SETTINGS_FOUND}
+
+
+def fam_taint_fanin(n, sinks="all"):
+    """n-way fan-out of a tainted value, n-way elif fan-in, a folded sum of all copies that is never sunk,
+    sinks on the fan-in value (middle) and on the source value (last)"""
+    src = ["def run(c):", "    x = sourc()"]
+    for i in range(n):
+        src.append(f"    w{i} = x")
+    src.append("    if c == 0:")
+    src.append("        y = w0")
+    for i in range(1, n):
+        src += [f"    elif c == {i}:", f"        y = w{i}"]
+    src += ["    else:", "        y = x"]
+    if sinks == "all":
+        src.append("    sink(y)")
+    src.append("    t0 = w0")
+    for i in range(1, n):
+        src.append(f"    t{i} = t{i-1} + w{i}")
+    src += [f"    dead = t{n-1}", "    sink(x)", "", "run(1)"]
+    return {"files": {"main.py": "\n".join(src) + "\n"}, "settings": TAINT_SETTINGS_FOUND}
+
+
+def fam_taint_chain(n, sinks="all"):
+    """a copy chain of length 2n from a tainted parameter, a loop that keeps copying the end of the chain back and
+    forth, sinks on the first link (first), the middle link and the last link (last)"""
+    m = 2 * n
+    src = ["def run(tainted_in, k):", "    a0 = tainted_in"] + (["    sink(a0)"] if sinks == "all" else [])
+    for i in range(1, m + 1):
+        src.append(f"    a{i} = a{i-1}")
+        if i == n and sinks == "all":
+            src.append(f"    sink(a{i})")
+    src += ["    i = 0", "    while i < k:", f"        b = a{m}", f"        a{m} = b", "        i = i + 1",
+            f"    sink(a{m})", "", "run(1, 2)"]
+    return {"files": {"main.py": "\n".join(src) + "\n"}, "settings": TAINT_SETTINGS_FOUND}
+
+
+def fam_degenerate_callers_first(n):
+    """n caller/stub pairs, callers defined before the stubs, NO unresolved call anywhere (an unresolved call such
+    as print() moves the callers into a later method group of the bottom-up phase, so that every stub is analysed
+    as a root before its caller).  All methods then sit in one set and are taken in set-iteration order of their
+    ids: the filler statements spread the ids so that for some pairs the caller comes first and its stub is first
+    reached through the caller's interruption.  Stub bodies rotate through pass / bare return / docstring-only /
+    `...`; every second caller calls its stub inside a loop; a second stub is shared by all callers."""
+    bodies = ["    pass", "    return", "    \"\"\"doc\"\"\"", "    ..."]
+    src = []
+    for i in range(n):
+        src.append(f"def main{i}():")
+        for j in range(i % 5):
+            src.append(f"    pad{j} = {j}")
+        if i % 2:
+            src += ["    k = 0", "    while k < 2:", f"        hook{i}()", "        k = k + 1"]
+        else:
+            src.append(f"    hook{i}()")
+        src += ["    shared()", f"    return {i}", ""]
+    for i in range(n):
+        src += [f"def hook{i}():", bodies[i % 4], ""]
+    src += ["def shared():", "    pass", ""]
+    for i in range(n):
+        src.append(f"r{i} = main{i}()")
+    return {"files": {"main.py": "\n".join(src) + "\n"}}
+
+
 FAMILIES = {
     "self_recursion": fam_self_recursion, "mutual_recursion": fam_mutual_recursion,
     "self_application": fam_self_application, "cyclic_imports": fam_cyclic_imports,
@@ -268,7 +352,16 @@ FAMILIES = {
     "call_chain3": fam_call_chain3, "call_chain4": fam_call_chain4, "taint_ring": fam_taint_ring,
     "random_calls": fam_random_calls,
     "degenerate_callees": fam_degenerate_callees, "degenerate_chain": fam_degenerate_chain,
+    "degenerate_callers_first": fam_degenerate_callers_first,
+    # all three sink positions in one program: only --enable-p2 recognises every `sink(...)` call of a method ...
+    "taint_diamonds": fam_taint_diamonds, "taint_fanin": fam_taint_fanin, "taint_chain": fam_taint_chain,
+    # ... so the default mode gets the single sink in the worst position (last, behind the dead-end region)
+    "taint_diamonds_last": lambda n: fam_taint_diamonds(n, "last"),
+    "taint_fanin_last": lambda n: fam_taint_fanin(n, "last"),
+    "taint_chain_last": lambda n: fam_taint_chain(n, "last"),
 }
+TAINT_P3_ONLY_IN_QUICK = ("taint_ring", "taint_diamonds_last", "taint_fanin_last", "taint_chain_last")
+TAINT_P2_ONLY_IN_QUICK = ("taint_diamonds", "taint_fanin", "taint_chain")
 
 # hostile literal constants: fixed members (n scales the literal where that makes sense)
 def fam_hostile(member, n):
@@ -284,6 +377,33 @@ def fam_hostile(member, n):
         q = "'\\\"" * n
         src = ("a = '\\\" + \\\"x'\nb = a + 'b'\nc = \"" + "\\\"" * n + "\"\nd = c + c\n"
                "e = '''" + "x'\"" * n + "'''\nf = e + a\nprint(b, d, f)\n")
+    elif member in ("fold_ops", "fold_ops_cmp"):
+        # every operand is itself the result of an earlier fold (never a literal of the dangerous size):
+        # negative, zero, one, minus one, huge (just under the folder's 4096-bit limit), big exponents, strings,
+        # a %-format with a huge width, a float
+        pre = ["two = 1 + 1", "one = 3 - 2", "zero = 5 - 5", "neg = 2 - 11", "mone = 1 - 2", "ten = 5 + 5",
+               "big = 9999 * 10001", "negbig = zero - big", "huge = ten ** 1200", "neghuge = zero - huge",
+               "s = 'ab' + 'cd'", "fmt = '%9999' + '9999s'", "f = 5 / two", "sn = '12' + '3'"]
+        names = ["two", "one", "zero", "neg", "mone", "big", "negbig", "huge", "neghuge", "s", "fmt", "f", "sn"]
+        if member == "fold_ops":
+            ops = ["**", "<<", "*", "%", ">>", "//", "/"]
+            pairs = [(a, b) for a in names for b in names]
+        else:
+            ops = ["+", "-", "&", "|", "^", "and", "or", "==", "!=", "<", ">", "<=", ">=", "in", "is"]
+            small = ["neg", "zero", "huge", "neghuge", "s", "fmt", "f", "big"]
+            pairs = [(a, b) for a in small for b in small]
+        lines = list(pre)
+        k = 0
+        for op in ops:
+            for a, b in pairs:
+                lines.append(f"r{k} = {a} {op} {b}")
+                k += 1
+        # second-generation operands: results of the first generation fed back
+        lines += ["g1 = neg ** 9", "g2 = g1 ** big", "g3 = g1 << big", "g4 = g1 * huge", "g5 = fmt % s", "g6 = mone ** big",
+                  "g7 = zero ** big", "g8 = one ** huge", "g9 = neghuge ** two", "g10 = neg ** negbig", "g11 = f ** big",
+                  "g12 = huge ** f", "g13 = s * big", "g14 = big * s", "g15 = neg ** 99999999", "g16 = mone << 99999999",
+                  "g17 = neghuge * neghuge", "g18 = g17 * g17", "print(g1)"]
+        src = "\n".join(lines) + "\n"
     elif member == "mul_string":
         src = f"s = 'ab' * {10 ** 8}\nt = s + 'c'\nprint(len(t))\n"
     else:
@@ -292,7 +412,7 @@ def fam_hostile(member, n):
 
 
 # pow_chain and pow_tower (the two open findings) are run from corpus/C13/, not from the sweep
-HOSTILE = ["shift_big", "big_string", "quotes", "mul_string"]
+HOSTILE = ["shift_big", "big_string", "quotes", "mul_string", "fold_ops", "fold_ops_cmp"]
 
 # --------------------------------------------------------------------------------------- running
 
@@ -335,6 +455,7 @@ def run_case(case, scratch):
     """one worker subprocess; returns the worker's JSON plus wall/timeout information"""
     cid = case_id(case)
     root = os.path.join(scratch, cid)
+    shutil.rmtree(root, ignore_errors=True)
     os.makedirs(root, exist_ok=True)
     args, src_bytes = materialise(case, root)
     out = os.path.join(root, "out.json")
@@ -446,6 +567,24 @@ def build_requests(w):
             reqs.append(("taint", i, {"m": "termination", "op": "taint", "n": t["n"],
                                       "slots": list(range(t["n_slots"])), "bits": t["bits"], "src": t["src"],
                                       "acts": t["acts"], "tags": t["tags0"], "queue": t["queue0"]}))
+    for i, r in enumerate(w.get("p2_roots", [])):
+        if r.get("detail") and r.get("analyzed_before") is not None:
+            M = {r["root"], *r["analyzed_before"]}
+            for inv in r["invocations"]:
+                for _, raw in inv:
+                    M.update(raw)
+            for e in r["events"]:
+                M.add(e[1])
+            reqs.append(("prelim", i, {"m": "termination", "op": "prelim", "M": sorted(M), "root": r["root"],
+                                       "analyzed": r["analyzed_before"],
+                                       "nobody": sorted({e[1] for e in r["events"] if e[0] == "initFail"}),
+                                       "script": r["invocations"]}))
+    for i, d in enumerate(w.get("dfs", [])):
+        if d.get("detail") and "succ" in d and d.get("source", -1) >= 0:
+            # recursive visited-set DFS = stack closure with the successors pushed in reverse order
+            reqs.append(("dfs", i, {"m": "termination", "op": "closure", "disc": "lifo",
+                                    "next": [[u, list(reversed(vs))] for u, vs in enumerate(d["succ"])],
+                                    "N": list(range(d["n"])), "init": [d["source"]]}))
     for i, c in enumerate(w.get("closure", [])):
         init = [c["start"]] if c["start"] else []        # `SimpleWorkList(node)`: `if init_data:`
         reqs.append(("closure", i, {"m": "termination", "op": "closure", "disc": "fifo", "next": c["next"],
@@ -601,6 +740,55 @@ def check_run(res, replies):
             bound = (2 * t["n"] * bits + 2 * t["n"]) * (1 + t["edges"])
             if t["n_deq"] > bound:
                 mon.append({"monitor": "taint_bound", "index": i, "dequeues": t["n_deq"], "bound": bound, "evaluated": "python"})
+    # ---- path reconstruction (visited-set DFS), one per flow found
+    st["flows_found"] = int(w.get("flows_found") or 0)
+    for i, d in enumerate(w.get("dfs", [])):
+        st["dfs_runs"] = st.get("dfs_runs", 0) + 1
+        st["dfs_expansions"] = st.get("dfs_expansions", 0) + d["expansions"]
+        if d["expansions"] > d["n"]:
+            mon.append({"monitor": "dfs_bound", "index": i, "expansions": d["expansions"], "nodes": d["n"],
+                        "edges": d["edges"], "bound": d["n"]})
+        rep = by.get(("dfs", i))
+        if rep is not None:
+            if "ok" not in rep:
+                corr.append({"loop": "reconstruct_define_use_path", "index": i, "driver_error": rep.get("err")})
+                continue
+            order = rep["ok"]["visited"]                 # the model's pre-order over everything reachable
+            real = list(d["expanded"])
+            # the real search stops at the sink (which it marks but does not expand)
+            want = order[:order.index(d["sink"])] if d["sink"] in order else order
+            if real != want:
+                k = first_diff(real, want)
+                corr.append({"loop": "reconstruct_define_use_path", "index": i, "first_diff_at": k,
+                             "real": real[max(0, k - 2):k + 3], "model": want[max(0, k - 2):k + 3]})
+            if len(real) > rep["ok"]["bound"]:
+                mon.append({"monitor": "dfs_bound", "index": i, "expansions": len(real), "bound": rep["ok"]["bound"]})
+    # ---- cost of one statement analysis
+    sc = w.get("stmt_cpu") or {}
+    st["stmt_cpu_max_ms"] = int(1000 * (sc.get("max") or 0))
+    if (sc.get("max") or 0) > STMT_CPU_LIMIT:
+        mon.append({"monitor": "stmt_cpu", "cpu_s": sc["max"], "limit_s": STMT_CPU_LIMIT, "statement": sc.get("argmax")})
+    # ---- P2 driver (analyze_method): interruptions <= |methods|, frames <= 1 + |methods|^2 per root (counts; the
+    # exact replay is in the prelim requests)
+    for i, r in enumerate(w.get("p2_roots", [])):
+        st["p2_roots"] = st.get("p2_roots", 0) + 1
+        st["p2_interruptions"] = st.get("p2_interruptions", 0) + r["interruptions"]
+        if r["interruptions"] > r["n_methods"]:
+            mon.append({"monitor": "p2_interruptions_bound", "root": r["root"], "interruptions": r["interruptions"],
+                        "bound": r["n_methods"]})
+        rep = by.get(("prelim", i))
+        if rep is not None:
+            if "ok" not in rep:
+                corr.append({"loop": "analyze_method", "root": r["root"], "driver_error": rep.get("err")})
+                continue
+            m = rep["ok"]
+            if r["events"] != m["events"]:
+                d = first_diff(r["events"], m["events"])
+                corr.append({"loop": "analyze_method", "root": r["root"], "first_diff_at": d,
+                             "real": r["events"][max(0, d - 2):d + 3], "model": m["events"][max(0, d - 2):d + 3]})
+            if r["interruptions"] > m["bound"] or len(r["events"]) > 4 * m["bound"] + 2:
+                mon.append({"monitor": "p2_driver_bound", "root": r["root"], "interruptions": r["interruptions"],
+                            "events": len(r["events"]), "methods": m["bound"]})
     # ---- closures
     for i, c in enumerate(w.get("closure", [])):
         st["closures"] += 1
@@ -668,6 +856,8 @@ def run_monitors(res):
     elif w["status"] == "exception":
         out.append({"monitor": "crash", "exc": w["exc"]["type"], "msg": w["exc"]["msg"][:160],
                     "where": [f"{f[0]}:{f[1]}" for f in w["exc"]["frames"][-4:]]})
+    elif w["status"] == "hard_stop":
+        out.append(dict(w.get("hard_stop") or {}, monitor="hard_bound"))
     elif w["status"] == "exit":
         out.append({"monitor": "sys_exit", "code": w.get("exit_code"), "tail": res.get("tail", "")[-400:]})
     return out
@@ -734,8 +924,9 @@ def sweep_cases(tier, widen, seed=0):
         if only and fam not in only:
             continue
         for mode in ("p3", "p2"):
-            if fam == "taint_ring" and mode == "p2" and tier == "quick":
-                continue
+            if tier == "quick" and ((fam in TAINT_P3_ONLY_IN_QUICK and mode == "p2")
+                                    or (fam in TAINT_P2_ONLY_IN_QUICK and mode == "p3")):
+                continue        # the taint engine is the same in both modes; the recognised sinks are not
             for n in ns:
                 if tier == "thorough" and n == 64 and fam in ("cyclic_imports",):
                     pass
@@ -749,9 +940,14 @@ def sweep_cases(tier, widen, seed=0):
             continue
         for mode in hostile_modes:
             for n in ([4] if tier == "quick" else [4, 32]):
-                if mem in ("shift_big", "mul_string") and n != 4:
+                if mem in ("shift_big", "mul_string", "fold_ops", "fold_ops_cmp") and n != 4:
                     continue
-                cases.append({"family": "hostile:" + mem, "n": n, "mode": mode})
+                c = {"family": "hostile:" + mem, "n": n, "mode": mode}
+                if mem.startswith("fold_ops"):
+                    c["timeout"] = timeout_for(8)     # ~1000-2200 statements: budget of a size-8 program (clean: 20-60 CPU-s)
+                cases.append(c)
+    # longest runs first (the hostile members analyse ~1000 statements each): shortest makespan on the worker pool
+    cases.sort(key=lambda c: 0 if c["family"].startswith("hostile:") else 1)
     return cases
 
 
@@ -764,6 +960,8 @@ def corpus_cases():
             c = {"family": j["family"], "n": j.get("n", 1), "mode": mode, "corpus": os.path.basename(f)}
             if "files" in j:
                 c["files"] = j["files"]
+            if "settings" in j:
+                c["settings"] = j["settings"]
             if "timeout" in j:
                 c["timeout"] = j["timeout"]
             out.append(c)
@@ -851,7 +1049,7 @@ def _run(ctx, proofs_ok, tier, scratch):
         mon += m2
         for k, v in st.items():
             if isinstance(v, int) and k not in ("bound_slack_min", "total_slack_min"):
-                totals[k] = totals.get(k, 0) + v if k not in ("max_path", "max_site_counter") else max(totals.get(k, 0), v)
+                totals[k] = totals.get(k, 0) + v if k not in ("max_path", "max_site_counter", "stmt_cpu_max_ms") else max(totals.get(k, 0), v)
         if st.get("bound_slack_min") is not None:
             totals["bound_slack_min"] = min(totals.get("bound_slack_min", 10 ** 9), st["bound_slack_min"])
         if st.get("total_slack_min") is not None:
@@ -914,7 +1112,8 @@ def _run(ctx, proofs_ok, tier, scratch):
         if reported < 5:
             ctx.violation({"what": f"C13 monitor `{f['monitor']}` failed on the real analyser",
                            "family": case["family"], "n": case["n"], "mode": case["mode"], "gen_seed": case.get("seed"),
-                           "files": case.get("files"), "timeout": case.get("timeout"), "failure": f})
+                           "files": case.get("files"), "settings": case.get("settings"),
+                           "timeout": case.get("timeout"), "failure": f})
         reported += 1
     if reported == 0 and (corr_all or breaks or not proofs_ok):
         c0 = corr_all[0] if corr_all else (None, None)
@@ -941,6 +1140,8 @@ def replay(rp):
             case["seed"] = rp["gen_seed"]
         if rp.get("files"):
             case["files"] = rp["files"]
+        if rp.get("settings"):
+            case["settings"] = rp["settings"]
         if rp.get("timeout"):
             case["timeout"] = rp["timeout"]
         want = rp["failure"]["monitor"]
